@@ -20,8 +20,8 @@ META = {
     'bounds': {'quick': 'ising d<=4; exciton n<=4; co_oxidation order 2-3 (TT column sums up to order 5); two_step m<=2; kuramoto/fpu d<=4; qft n<=3; qfan<=2; '
                         'signaling_cascade d<=3 (column sums in TT form); rgb_fractal 2x2 level<=2',
                'thorough': 'co_oxidation order 4 dense, qft gate groups up to n=7, larger TT-form sizes (the product == DFT identity at n=4 does not finish: z3 ignores its timeout; not claimed)'},
-    'outside': ['toll_station (its SLIM call truncates with threshold 1e-14 on rates built from exp/sqrt/pi constants: only its reaction lists are checked: every '
-                'product state is inside the state space and rates are positive expressions)', 'sizes beyond the bounds', 'float-literal constants are taken as the '
+    'outside': ['toll_station: the 1e-14 relative cut inside its SLIM SVD (decided under the trivial factorisation, which keeps every direction; invariance under all '
+                'valid factorisations at threshold 0 is C12); exp is uninterpreted, only exp > 0 is assumed for the sign statement', 'sizes beyond the bounds', 'float-literal constants are taken as the '
                 'IEEE doubles the source denotes'],
     'assumptions': ['rates > 0', 'sin/cos uninterpreted (Kuramoto)'],
     'tv_per_scenario': {'quick': 1, 'thorough': 1},
@@ -152,6 +152,84 @@ def co_oxidation(ctx, order, cyclic, dense):
         ctx.via('co_oxidation == generator of the documented reaction network', lambda: D.as_matrix(mdl.co_oxidation(order, k, cyclic=cyclic).full(), order),
                 lambda: G, through=('__slim_tcr_decomposition',), tol=1e-12)
         _offdiag_nonneg(ctx, 'co_oxidation: off-diagonal entries non-negative', G)
+
+
+# ------------------------------------------------------------------------ toll station
+@scenario('C13', 'toll_station', lambda tier: [{'lanes': l, 'cars': c} for (l, c) in (((2, 1), (3, 1), (2, 2)) if tier == 'quick' else ((2, 1), (3, 1), (2, 2), (4, 1), (3, 2), (2, 3)))])
+def toll_station(ctx, lanes, cars):
+    """toll_station(lanes, cars) == master-equation generator of the documented traffic network (arrival/departure densities as exact terms over
+    exp / sqrt / pi); off-diagonal >= 0 given exp > 0; the 1e-14 relative cut of the SLIM SVD is outside (trivial factorisation keeps everything)"""
+    mdl = ctx.R.models
+    if ctx.mode == 'tv':
+        raise SkipTV()
+    npx = np if ctx.mode == 'conc' else mdl.np
+    n = cars + 1
+    # independent statement of the model (Gelss 2017, sec. 5.3): lane i sits at position -2 + 4 i/(lanes-1); cars arrive with the density of
+    # N(0, 2.5) + 0.05 and leave with the sum of the densities of N(-1.5, 1) and N(1.5, 0.5); a car changes to a neighbouring lane that is not
+    # fuller than its own (after the change) at rate 5
+    def dens(t, mean, var):
+        return npx.exp(-(t - mean) * (t - mean) / (2 * var)) / npx.sqrt(2 * npx.pi * var)
+    def network():
+        L = ctx.lift
+        half = ctx.const_frac(1, 2)
+        single, rs = [], []
+        for i in range(lanes):
+            t = L(-2 + 4 / (lanes - 1) * i)
+            fin = dens(t, 0, ctx.const_frac(5, 2)) + L(0.05)
+            fout = dens(t, ctx.const_frac(-3, 2), 1) + dens(t, ctx.const_frac(3, 2), half)
+            sc, rr = [], []
+            for j in range(cars):
+                sc += [(j, j + 1), (j + 1, j)]
+                rr += [fin, fout]
+            single.append(sc)
+            rs.append(rr)
+        two, rt = [], []
+        for i in range(lanes - 1):
+            tc = []
+            for a in range(1, n):               # cars on the lane that loses one
+                for b in range(0, a):           # cars on the lane that gains one (b < a)
+                    tc += [(a, a - 1, b, b + 1), (b, b + 1, a, a - 1)]
+            two.append(tc)
+            rt.append([L(5)] * len(tc))
+        return single, two, rs, rt
+    box = {}
+
+    def run():
+        op = mdl.toll_station(lanes, cars)
+        box['op'] = op
+        return D.as_matrix(op.full(), lanes)
+    G = [None]
+
+    def spec():
+        single, two, rs, rt = network()       # after the executor reset of via(): algebraic symbols live in the executor state
+        G[0] = _generator(ctx, [n] * lanes, single, two, rs, rt)
+        return G[0]
+    ctx.via('toll_station == generator of the documented traffic network', run, spec, through=('__slim_tcr_decomposition',), tol=1e-10)
+    op = box['op']
+    meta_ok(ctx, 'toll_station', op)
+    ctx.check('toll_station: dims', op.row_dims == [n] * lanes and op.col_dims == [n] * lanes)
+    sums = _ones_contract(ctx, op)
+    ctx.eq('toll_station: column sums vanish (ones-vector contracted through the TT cores)', sums, ctx.zeros(sums.shape, cplx=False), tol=1e-10)
+    if ctx.sym:
+        # exp is an uninterpreted function in the encoding: its positivity is the one property of exp the sign statement needs
+        import z3
+        from symtt import state
+        from symtt.scalar import zterm
+        seen = {}
+
+        def walk(e):
+            if e.get_id() in seen:
+                return
+            seen[e.get_id()] = 1
+            if z3.is_app(e):
+                if e.decl().name() == 'exp':
+                    ctx.assume(e > 0)
+                for ch in e.children():
+                    walk(ch)
+        for e in G[0].plain().flat:
+            if not e.is_concrete:
+                walk(zterm(e.re))
+    _offdiag_nonneg(ctx, 'toll_station: off-diagonal entries non-negative (given exp > 0)', G[0])
 
 
 # ------------------------------------------------------------------ two-step destruction
